@@ -35,13 +35,17 @@ crediting a second `AccountState` copy that `executeTx` then overwrote — were 
 (fix: "name transactions credited a second copy of an account that executeTx overwrites"); the model is
 the repaired code and the theorems cover name transactions at full strength; the two former witnesses
 are kept as regression tests (`setOwner_owner_is_sender_conserves`, `name_owner_is_name_contract_conserves`).
-The one other hypothesis is `SenderOK`, three facts about a *signed* transaction (C04) cut down to the tx
-shape each is needed for: a governance tx to aergo.name is not sent by aergo.name, a tx whose recipient is
-its own sender is not sent by a contract, a deployed contract's address is not the sender's. The first two
-are necessary (`sender_aergo_name_mints`, `contract_calling_itself_mints`: the model — and, by the
-correspondence run, the real `executeTx`, which never looks at signatures — mints coin without them).
-That a fee-delegation recipient is a contract is no longer assumed: the model carries the
-`CheckFeeDelegation` precondition (`fee_delegation_recipient_is_a_contract`).
+The one other hypothesis is `SenderOK`, two facts about a *signed* transaction (C04) cut down to the tx
+shape each is needed for: a REDEPLOY whose recipient is its own sender is not sent by a contract, and a
+deployed contract's address is not the sender's own. Until fix 343afa85 a third and a wider second clause
+were needed — and were NOT guaranteed by signature verification: a tx sent under a *name* whose destination
+is a contract is signed by the name's owner and executes as the contract account; addressed to that contract
+it minted whatever the script sent to third parties (found by this check: the verifier's own `verifyTx`
+decides which generated txs the oracles apply to). `executeTx` now uses the sender's record as the receiver's
+whenever the resolved recipient is the sender's own account; the model is the repaired code and the two
+former necessity witnesses are regression tests (`contract_calling_itself_conserves`,
+`sender_aergo_name_conserves`). That a fee-delegation recipient is a contract is not assumed either: the model
+carries the `CheckFeeDelegation` precondition (`fee_delegation_recipient_is_a_contract`).
 -/
 import Aergo.Lemmas.LedgerBlock
 import Aergo.Lemmas.LedgerFee
@@ -158,8 +162,9 @@ theorem executeTx_conserves_partial (c : Ctx) (w : World) (bp : Nat) (tx : Tx)
   executeTx_total hsig hl
 
 /-- `SenderOK` is what signature verification gives (C04 `Signable`: the sender is a key account — no code,
-not aergo.name — and a contract it deploys lives elsewhere), and strictly less: a contract or aergo.name as
-the sender of a tx *to another account* is covered by the theorem too. -/
+not aergo.name — and a contract it deploys lives elsewhere), and strictly less: a contract account or
+aergo.name as the sender (a tx sent under a name, signed by the name's owner) is covered by the theorem,
+also when the tx is addressed to the sender itself. -/
 theorem signable_is_senderOK (w : World) (tx : Tx) (h : Signable w tx) : SenderOK w tx := h.senderOK
 
 /-- **The recipient of an executed fee-delegation transaction is a contract** — formerly the hypothesis
@@ -190,7 +195,7 @@ example : SenderOK w0 txTransfer ∧
     (executeTx ctxPub w0 0 txTransfer).leak = false ∧ (executeTx ctxPub w0 0 txTransfer).outcome = .success ∧
     (executeTx ctxPub w0 0 txTransfer).bp = 100000 ∧
     (executeTx ctxPriv w0 0 txStake).outcome = .success := by
-  refine ⟨⟨by decide, by decide, by decide⟩, by decide, by decide, by decide, by decide⟩
+  refine ⟨⟨by decide, by decide⟩, by decide, by decide, by decide, by decide⟩
 
 /-- a fee-delegation call to the contract 100, and the same to the plain account 11 -/
 def txFdOk : Tx :=
@@ -202,41 +207,62 @@ example : (executeTx ctxPub w0 0 txFdOk).outcome = .success ∧ (executeTx ctxPu
     (executeTx ctxPub w0 0 { txFdOk with recipient := some 11 }).outcome = .rejected .other := by
   refine ⟨by decide, by decide, by decide⟩
 
-/-- aergo.name itself sends `v1setOwner 11` to aergo.name (impossible for a signed tx: "aergo.name" is no key
-address) -/
+/-- aergo.name itself sends `v1setOwner 11` to aergo.name (the account field "aergo.name"; admitted by the
+signature verifier only if the name contract has an owner, which this world has not: a probe) -/
 def txNameByName : Tx :=
-  { type := .governance, sender := 1, recipient := some 1, amount := 0, nonce := 1, payloadLen := 9, gov := .setOwner 11 }
+  { type := .governance, sender := 1, recipient := some 1, amount := 0, nonce := 1, payloadLen := 9, gov := .setOwner 11
+    acctName := some 0 }
 
-/-- **`SenderOK.notName` is necessary** (negation witness for the statement without it): with aergo.name as
-the sender of a name transaction, `executeTx`'s `sender` and `receiver` are two records of aergo.name; the
-500 units move to the new owner from the receiver's record, and the sender's stale record is what
-`sender.PutState()` writes: 500 units are minted. -/
-theorem sender_aergo_name_mints :
-    ¬ SenderOK w0 txNameByName ∧ (executeTx ctxPriv w0 0 txNameByName).outcome = .success ∧
-    (executeTx ctxPriv w0 0 txNameByName).leak = false ∧
-    (executeTx ctxPriv w0 0 txNameByName).w.total + (executeTx ctxPriv w0 0 txNameByName).bp = w0.total + 0 + 500 := by
-  refine ⟨fun h => h.notName rfl rfl rfl, by decide, by decide, by decide⟩
+/-- regression test (fix 343afa85, "one account, one live record"): with aergo.name as the sender of a name
+transaction `receiver = sender`; the 500 units move to the new owner and the one record of aergo.name that
+is written shows the debit. (Before the fix `sender` and `receiver` were two records of aergo.name and the
+stale one was written: 500 units minted.) -/
+theorem sender_aergo_name_conserves :
+    (executeTx ctxPriv w0 0 txNameByName).outcome = .success ∧
+    (executeTx ctxPriv w0 0 txNameByName).w.total + (executeTx ctxPriv w0 0 txNameByName).bp = w0.total + 0 ∧
+    (executeTx ctxPriv w0 0 txNameByName).w.bal 1 = 0 ∧ (executeTx ctxPriv w0 0 txNameByName).w.bal 11 = 1000500 := by
+  refine ⟨by decide, by decide, by decide, by decide⟩
 
-/-- the contract 100 as the sender of a call to itself whose script sends 5 units to account 11 -/
+/-- the contract 100 as the sender of a call to itself whose script sends 5 units to account 11: a tx sent
+under a name whose destination is the contract, signed by the name's owner (the contract's creator) -/
 def txSelfCall : Tx :=
   { type := .call, sender := 100, recipient := some 100, amount := 0, nonce := 1, payloadLen := 40
+    script := { fee := 10, xfers := [(11, 5)] }, acctName := some 7 }
+
+/-- regression test for the repaired defect `C01-name-owner-sends-as-contract-to-itself` (fix 343afa85): the
+VM runs on the one record of the contract, which is the record the success branch writes: the 5 units the
+script sent away are debited (and the fee is paid by the contract account). Before the fix the VM debited a
+second record that was never written: 5 units minted. -/
+theorem contract_calling_itself_conserves :
+    SenderOK w0 txSelfCall ∧ ¬ Signable w0 txSelfCall ∧
+    (executeTx ctxPub w0 0 txSelfCall).outcome = .success ∧
+    (executeTx ctxPub w0 0 txSelfCall).w.total + (executeTx ctxPub w0 0 txSelfCall).bp = w0.total + 0 ∧
+    (executeTx ctxPub w0 0 txSelfCall).w.bal 100 = 700000 - 5 - 100010 ∧ (executeTx ctxPub w0 0 txSelfCall).w.bal 11 = 1000005 := by
+  refine ⟨⟨by decide, by decide⟩, fun h => absurd h.noCode (by decide), by decide, by decide, by decide, by decide⟩
+
+/-- a contract "redeploying" itself (REDEPLOY still works on two records of the one account) -/
+def txSelfRedeploy : Tx :=
+  { type := .redeploy, sender := 100, recipient := some 100, amount := 0, nonce := 1, payloadLen := 40
     script := { fee := 10, xfers := [(11, 5)] } }
 
-/-- **`SenderOK.noCode` is necessary**: a contract "sending" a call to itself runs the VM on the receiver's
-record while the success branch writes only the sender's record (`sender.AccountID() == receiver.AccountID()`):
-the 5 units the script sent away are not debited — minted. -/
-theorem contract_calling_itself_mints :
-    ¬ SenderOK w0 txSelfCall ∧ (executeTx ctxPub w0 0 txSelfCall).outcome = .success ∧
-    (executeTx ctxPub w0 0 txSelfCall).leak = false ∧
-    (executeTx ctxPub w0 0 txSelfCall).w.total + (executeTx ctxPub w0 0 txSelfCall).bp = w0.total + 0 + 5 := by
-  refine ⟨fun h => absurd (h.noCode rfl) (by decide), by decide, by decide, by decide⟩
+/-- **`SenderOK.noCode` is necessary** (negation witness for the statement without it) in a world where the
+contract is recorded as its own creator — no execution of the pinned code produces such a record (the creator
+is the deploying account, `fresh`), but the theorem quantifies over all worlds: the VM debits the receiver's
+record, the success branch writes the sender's. -/
+theorem contract_redeploying_itself_mints :
+    ¬ SenderOK { w0 with creator := [(100, 100)] } txSelfRedeploy ∧
+    (executeTx ctxPriv { w0 with creator := [(100, 100)] } 0 txSelfRedeploy).outcome = .success ∧
+    (executeTx ctxPriv { w0 with creator := [(100, 100)] } 0 txSelfRedeploy).leak = false ∧
+    (executeTx ctxPriv { w0 with creator := [(100, 100)] } 0 txSelfRedeploy).w.total +
+      (executeTx ctxPriv { w0 with creator := [(100, 100)] } 0 txSelfRedeploy).bp = w0.total + 0 + 5 := by
+  refine ⟨fun h => absurd (h.noCode rfl rfl) (by decide), by decide, by decide, by decide⟩
 
-/-- test: the sharpened hypothesis admits a contract as the sender of a transfer to somebody else, and
-the theorem's conclusion holds there -/
+/-- test: the hypothesis admits a contract as the sender of a transfer to somebody else, and the theorem's
+conclusion holds there -/
 example : SenderOK w0 { txTransfer with sender := 100 } ∧ ¬ Signable w0 { txTransfer with sender := 100 } ∧
     (executeTx ctxPub w0 0 { txTransfer with sender := 100 }).outcome = .success ∧
     (executeTx ctxPub w0 0 { txTransfer with sender := 100 }).w.total + (executeTx ctxPub w0 0 { txTransfer with sender := 100 }).bp = w0.total := by
-  refine ⟨⟨by decide, by decide, by decide⟩, fun h => absurd h.noCode (by decide), by decide, by decide⟩
+  refine ⟨⟨by decide, by decide⟩, fun h => absurd h.noCode (by decide), by decide, by decide⟩
 
 /-- `v1setOwner` naming the sender (10) as the new owner of the name contract -/
 def txSetOwnerSelf : Tx :=
@@ -362,8 +388,8 @@ def blk1 : Block := { ctx := ctxPub, txs := [txTransfer, txGap], reward := { win
 is refused by the validator and, with the rejected tx dropped, conserves the supply -/
 example : TxsOK blk1.ctx { w := w0.beginBlock } blk1.txs ∧ validateBlock w0 blk1 = none ∧
     (produceBlock w0 blk1).1.total = w0.total ∧ sumFees (produceBlock w0 blk1).2 = 100000 := by
-  refine ⟨⟨⟨⟨by decide, by decide, by decide⟩, by decide⟩,
-    ⟨⟨by decide, by decide, by decide⟩, by decide⟩, trivial⟩,
+  refine ⟨⟨⟨⟨by decide, by decide⟩, by decide⟩,
+    ⟨⟨by decide, by decide⟩, by decide⟩, trivial⟩,
     by decide, by decide, by decide⟩
 
 /-! ### branches -/
